@@ -168,24 +168,28 @@ def programs():
 VAR_TYPES = [("Zahl", "5", "5", "eine"), ("Kommazahl", "2,5", "2,5", "eine"), ("Byte", "(7 als Byte)", "7", "ein"), ("Wahrheitswert", "wahr", "wahr", "ein"),
              ("Buchstabe", "'ä'", "ä", "ein"), ("Text", '"txt"', "txt", "ein"), ("Zahlen Liste", "(eine Liste, die aus 1, 2 besteht)", "1, 2", "eine"),
              ("Text Liste", '(eine Liste, die aus "a" besteht)', "a", "eine"), ("Kommazahlen Liste", "(eine leere Kommazahlen Liste)", "", "eine"),
-             ("Hausnummer", "(5 als Hausnummer)", None, "eine")]
+             ("Hausnummer", "(5 als Hausnummer)", None, "eine"), ("Hausnummer(zugewiesen)", "(5 als Hausnummer)", None, "eine")]
 
 
 def variable_program():
     """n = index of held type, i = index of target type; cast succeeds iff equal (a type definition is distinct from its base)"""
     src = HEAD + "Wir definieren eine Hausnummer als eine Zahl.\nDie Variable v ist 0 als Variable.\n"
     for k, (tn, lit, _, _) in enumerate(VAR_TYPES):
-        src += "Wenn n gleich %d ist, Speichere (%s als Variable) in v.\n" % (k, lit)
+        if tn.endswith("(zugewiesen)"):     # implicit boxing by assignment instead of an explicit `als Variable`
+            src += "Wenn n gleich %d ist, Speichere %s in v.\n" % (k, lit)
+        else:
+            src += "Wenn n gleich %d ist, Speichere (%s als Variable) in v.\n" % (k, lit)
     src += 'Schreibe "#A" auf eine Zeile.\n'
     for k, (tn, lit, shown, _) in enumerate(VAR_TYPES):
-        if tn == "Hausnummer":
-            src += "Wenn i gleich %d ist, dann:\n\tDie Hausnummer hn ist v als Hausnummer.\n\tSchreibe (hn als Zahl) auf eine Zeile.\n" % k
+        if tn.startswith("Hausnummer"):
+            src += "Wenn i gleich %d ist, dann:\n\tDie Hausnummer hn%d ist v als Hausnummer.\n\tSchreibe (hn%d als Zahl) auf eine Zeile.\n" % (k, k, k)
         else:
             src += "Wenn i gleich %d ist, dann:\n\tSchreibe (v als %s) auf eine Zeile.\n" % (k, tn)
     src += 'Schreibe "#B" auf eine Zeile.\n'
 
     def model(n, i, j):
-        if n != i:
+        same = VAR_TYPES[n][0].split("(")[0] == VAR_TYPES[i][0].split("(")[0]
+        if not same:
             return "", True
         shown = VAR_TYPES[n][2]
         return ("5" if shown is None else shown) + "\n", False
@@ -288,7 +292,10 @@ def run(tier):
                 elif p.out != want_out:
                     sig = "in-domain access returned a wrong value"
             if sig:
-                chk.violation({"kind": sig, "program": name, "O": O, "index_class": index_class(n, i), "j_class": index_class(n, j) if "slice_range" in name or "text_in_list" in name else ""},
+                sigd = {"kind": sig, "program": name, "O": O, "index_class": index_class(n, i), "j_class": index_class(n, j) if "slice_range" in name or "text_in_list" in name else ""}
+                if name.startswith("Variable/"):
+                    sigd.update({"index_class": "", "held": VAR_TYPES[n][0], "target": VAR_TYPES[i][0]})
+                chk.violation(sigd,
                               files={"m.ddp": progs[k][1], "case.json": json.dumps({"args": [n, i, j], "expected_stdout": want_out, "expected_error": err,
                                                                                       "stdout": p.out, "stderr": p.err[:500], "rc": p.rc, "O": O})},
                               text="%s n=%d i=%d j=%d: %s; stdout=%r stderr=%r rc=%d" % (name, n, i, j, sig, p.out[:200], p.err[:120], p.rc))
